@@ -7,8 +7,11 @@ import sys
 _counter = [0]
 
 
-def write_host(dirpath, names, depth=1, method=False, caller_locals=False, tag=''):
-    """Write a host module. names: parameter names (declaration order = order of the locals)."""
+def write_host(dirpath, names, depth=1, method=False, caller_locals=False, tag='', kind=None):
+    """Write a host module. names: parameter names (declaration order = order of the locals).
+
+    kind (plain-function hosts only): None | 'closure' (the frame also holds two free variables) | 'generator' |
+    'coroutine' | 'nested_class' (a function of a class defined inside a function)."""
     _counter[0] += 1
     fname = 'host_%s%d.py' % (tag, _counter[0])
     params = ', '.join(names)
@@ -16,9 +19,44 @@ def write_host(dirpath, names, depth=1, method=False, caller_locals=False, tag='
     lines = ['"""generated host"""', '']
     # module-level names that the parameters shadow: an expression naming a local must see the local
     lines += ['%s = "module-level %s"' % (n, n) for n in names if n not in ('self', 'marker')] + ['', '']
-    lines += ['def leaf(%s):' % params,
-              '    marker = 0  # @hit',
-              '    return marker', '', '']
+    if kind == 'closure':
+        lines += ['def make_leaf(captured_note):',
+                  '    shared_cell = ["cell", captured_note]', '',
+                  '    def leaf(%s):' % params,
+                  '        marker = 0  # @hit',
+                  '        return marker, captured_note, shared_cell', '',
+                  '    return leaf', '', '',
+                  'leaf = make_leaf("captured")', '', '']
+    elif kind == 'generator':
+        lines += ['def leaf_gen(%s):' % params,
+                  '    marker = 0  # @hit',
+                  '    yield marker',
+                  '    yield "never reached"', '', '',
+                  'def leaf(*args):',
+                  '    return next(leaf_gen(*args))', '', '']
+    elif kind == 'coroutine':
+        lines += ['async def leaf_co(%s):' % params,
+                  '    marker = 0  # @hit',
+                  '    return marker', '', '',
+                  'def leaf(*args):',
+                  '    co = leaf_co(*args)',
+                  '    try:',
+                  '        co.send(None)',
+                  '    except StopIteration as stop:',
+                  '        return stop.value', '', '']
+    elif kind == 'nested_class':
+        lines += ['def make_obj():',
+                  '    class Local:',
+                  '        def run(self%s):' % (', ' + mparams if mparams else ''),
+                  '            marker = 0  # @hit',
+                  '            return marker', '',
+                  '    return Local()', '', '',
+                  'def leaf(*args):',
+                  '    return make_obj().run(*args)', '', '']
+    else:
+        lines += ['def leaf(%s):' % params,
+                  '    marker = 0  # @hit',
+                  '    return marker', '', '']
     lines += ['class Holder:',
               '    kind = "holder"', '',
               '    def __init__(self):',
